@@ -92,7 +92,7 @@ func (smm *serverMulticastWriterMedia) writePacketRTCP(pkt rtcp.Packet) error {
 
 	maxPlainPacketSize := smm.maxPacketSize
 	if smm.srtpOutCtx != nil {
-		maxPlainPacketSize -= srtcpOverhead
+		maxPlainPacketSize -= smm.srtpOutCtx.rtcpOverhead()
 	}
 
 	if len(plain) > maxPlainPacketSize {
